@@ -47,6 +47,8 @@ meta["suite_stable_passing"] = f"{len(base['stable_pass'])-len(missing)}/{len(ba
 meta["suite_not_passing"] = missing[:5]
 reset()
 # run the checks against /repo with the mutation applied
+import fcntl
+_lk = open("/tmp/repo.lock", "w"); fcntl.flock(_lk, fcntl.LOCK_EX)   # /repo is shared: one evaluation at a time
 assert sh("git status --porcelain", "/repo")[1].strip() == "", "repo dirty"
 rc, o = sh(f"git apply {patch}", "/repo")
 meta["applies_to_repo"] = rc == 0
@@ -64,6 +66,7 @@ if rc == 0:
             if len(caught[cur]) < 3: caught[cur].append(m2.group(1) + " :: " + m2.group(2)[:160])
     meta["checker_failures"] = [l[:200] for l in p.stdout.split("\n") if l.startswith("CHECKER-FAILURE")][:3]
 sh("git checkout -- . && git clean -fdq", "/repo")
+fcntl.flock(_lk, fcntl.LOCK_UN)
 meta["caught_by"] = caught
 meta["caught_by_own_property"] = pid in caught
 valid = meta["patch_applies"] and meta["builds"] and meta["demo_without_change"] == "pass" and meta["demo_with_change"] == "fail" and not missing
